@@ -621,6 +621,25 @@ def rule_D(F, R):
                     if m and m.group(1).upper() in ("OFF", "0"):
                         R.violation("D5", F.owner(bp), "synchronous=OFF", "synchronous=OFF: an acknowledged commit may be lost", where(b, i))
     R.floor("D5", "journal_mode pragmas examined", n, 1)
+    # the connection reads the real database with its journal: no URI parameter or flag that makes SQLite
+    # skip the WAL or the locks (immutable=1, nolock=1), an alternative VFS, or an in-memory database
+    import roles
+    no = 0
+    for bp, b in sorted(F.bodies.items()):
+        if "storage::sqlite" not in bp:
+            continue
+        opens = [(i, t) for (i, t) in F.calls_in.get(bp, ()) if any(re.search(r"rusqlite::Connection::open", x) for x in call_names(t))]
+        if not opens:
+            continue
+        no += len(opens)
+        lits = roles.body_literals(F, b, depth=1)
+        bad = sorted(s for s in lits if re.search(r"immutable=|nolock=|mode=memory|[?&]vfs=|SQLITE_OPEN_URI|SQLITE_OPEN_MEMORY|open_in_memory", s or ""))
+        memo = [x for (_i, t) in opens for x in call_names(t) if x.endswith("open_in_memory")]
+        if bad or memo:
+            R.violation("D5", F.owner(bp), "connection-bypasses-journal", "the SQLite connection is opened with `%s`: such a connection does not read the write-ahead log (or is not the file at all), so transactions committed before a process kill are invisible to it" % (bad or memo)[0][:60], where(b, opens[0][0]))
+        else:
+            R.ok("D5", "connection opened on the plain database path (no immutable/nolock/vfs/memory)", where(b, opens[0][0]))
+    R.floor("D5", "Connection::open sites in storage::sqlite", no, 1)
 
 
 def rule_Q4(F, R):
